@@ -166,6 +166,14 @@ def gen_globals(rng, defines=None):
         model["debug_iters"] = True
     for d in defines or []:
         args.append(d)
+    # command-line defines (names may or may not exist in the program; C16 checks their meaning,
+    # here they widen the option space for C03/C18)
+    if rng.random() < 0.25:
+        for _ in range(rng.randint(1, 2)):
+            name = rng.choice(["x", "k0", "k1", "lbl0", "foo", "val", "a.b", "K1", ""])
+            val = rng.choice(["", "", "=5", "=0x10", "=-3", "=true", "=false", "=", "=-", "=abc", "=1=2", "=0b101", "=%11", "=$ff"])
+            args.append(rng.choice(["-d", "--define="]) + name + val)
+            model["defines"].append((name, val))
     return args, model
 
 
